@@ -1,0 +1,1 @@
+//! Verification hooks: `remote_map` (thin pass-through wrappers; feature `verif-hooks` only).
